@@ -251,6 +251,16 @@ func (x *World) evalFamily(spec *model.FilterSpec) *Violation {
 	if v := x.evalFilter(fl, spec, nil, "fresh"); v != nil {
 		return v
 	}
+	if spec.Unsafe && len(spec.Rels) == 0 {
+		// stale (dead, possibly id-recycled) handles as per-query targets: must match nothing
+		for _, c := range spec.Required().Rels().List() {
+			for _, d := range x.deadSamples() {
+				if v := x.evalFilter(fl, spec, []model.RelT{{C: c, T: d}}, "fresh/stale-target"); v != nil {
+					return v
+				}
+			}
+		}
+	}
 	if len(spec.Rels) > 0 {
 		open := *spec
 		open.Rels = nil
@@ -266,7 +276,8 @@ func (x *World) evalFamily(spec *model.FilterSpec) *Violation {
 func (x *World) evalFilter(fl api.Filter, spec *model.FilterSpec, qt []model.RelT, what string) *Violation {
 	x.Stat.QueriesRun++
 	for _, r := range qt {
-		if r.T != model.ZeroTarget && !x.M.IsAlive(r.T) {
+		// typed queries reject dead targets (checked), the ID-based API accepts any handle
+		if r.T != model.ZeroTarget && !x.M.IsAlive(r.T) && !spec.Unsafe {
 			return nil
 		}
 	}
@@ -573,4 +584,36 @@ func (x *World) sourceTables(ents []int) int {
 		seen[fmt.Sprint(e.Comps, e.Tgt)] = true
 	}
 	return len(seen)
+}
+
+// deadSamples returns up to two dead entities of the current epoch: one whose id is in use
+// again by a live entity (if any) and one whose id is not.
+func (x *World) deadSamples() []int {
+	live := map[uint32]bool{}
+	for _, i := range x.M.Alive() {
+		if i < len(x.H) {
+			live[x.H[i].ID()] = true
+		}
+	}
+	a, b := -1, -1
+	for i := x.M.EpochLo; i < len(x.M.Ents) && i < len(x.H); i++ {
+		if x.M.Ents[i].Alive || x.byHandle[x.H[i]] != i {
+			continue
+		}
+		if live[x.H[i].ID()] {
+			if a < 0 {
+				a = i
+			}
+		} else if b < 0 {
+			b = i
+		}
+	}
+	var out []int
+	if a >= 0 {
+		out = append(out, a)
+	}
+	if b >= 0 {
+		out = append(out, b)
+	}
+	return out
 }
